@@ -86,6 +86,11 @@ class ConfigList(ComposedNode, list):
         return self._del(index)
 
     @namespace('ayns')
+    def rename_child(self, old_name, new_name):
+        # (the generic version would re-key the child map only: the elements of a list are numbered by where they stand)
+        raise TypeError(f'The elements of a list are numbered by their position and cannot be renamed ({old_name!r} -> {new_name!r})')
+
+    @namespace('ayns')
     def get_child(self, index, default=None):
         return self._get(index, default=default, raise_ex=False)
 
